@@ -2,6 +2,8 @@ import GitSizer.Gen.Strs
 import GitSizer.Proofs.RefFilter
 import GitSizer.Proofs.Config
 import GitSizer.Model.PathResolver
+import GitSizer.Model.Parsers
+import GitSizer.Basic.Sat
 /-! The hand-written models of `prefixFilter.Filter` and `configKeyMatchesPrefix` ARE the functions
     regenerated from the source by tools/gostr2lean (in which an out-of-range index or slice is a
     panic): the regenerated functions never panic and return exactly what the models return. -/
@@ -245,5 +247,179 @@ theorem rootTreePrefix_regenerated (hex : Nat → Bytes) (name : Bytes) (oid : N
               have hne2 : ¬ (some c = some PathRes.slash) := by simp [hc]
               simp [this, hne2]
               rfl
+
+end GitSizer
+
+namespace GitSizer
+open GitSizer.Parsers
+
+/-- same outcome: equal values (up to `R`), or both an error, or both a panic -/
+def Res.sim {α β : Type} (R : α → β → Prop) : Res α → Res β → Prop
+  | .ok a, .ok b => R a b
+  | .err _, .err _ => True
+  | .panic _, .panic _ => True
+  | _, _ => False
+
+theorem splitOn_ne_nil (c : UInt8) : ∀ (s : Bytes), Bytes.splitOn c s ≠ [] := by
+  intro s
+  induction s with
+  | nil => simp [Bytes.splitOn]
+  | cons b bs ih =>
+    unfold Bytes.splitOn
+    cases h : Bytes.splitOn c bs with
+    | nil => simp
+    | cons w ws => by_cases hb : b = c <;> simp [hb]
+
+theorem indexL_ok (l : List Bytes) (n : Nat) : Go.indexL l (n : Int) = match l[n]? with
+    | some w => .ok w
+    | none => .panic "index-out-of-range" := by
+  unfold Go.indexL
+  have : ¬ ((n : Int) < 0) := by omega
+  simp only [this, if_false, Int.toNat_natCast]
+  rfl
+
+theorem indexL_last (l : List Bytes) (h : l ≠ []) :
+    Go.indexL l ((l.length : Int) - 1) = .ok (l.getLast h) := by
+  have hpos : 0 < l.length := List.length_pos_iff.mpr h
+  have : ((l.length : Int) - 1) = ((l.length - 1 : Nat) : Int) := by omega
+  rw [this, indexL_ok]
+  have : l[l.length - 1]? = some (l.getLast h) := by
+    rw [List.getLast_eq_getElem]; exact List.getElem?_eq_getElem (by omega)
+  rw [this]
+
+/-- `ParseReference` as regenerated from git/reference.go has the model's outcome -/
+theorem parseReference_regenerated (line : Bytes) :
+    Res.sim (fun t (r : Reference) => t = (r.refname, r.objType, r.size, r.oid))
+      (Gen.Strs.ParseReference line) (parseReference line) := by
+  unfold Gen.Strs.ParseReference parseReference
+  simp only [pure, bind, Res.bind]
+  cases hw : Bytes.splitOn 32 line with
+  | nil => exact absurd hw (splitOn_ne_nil 32 line)
+  | cons w0 t0 =>
+    cases t0 with
+    | nil => simp [Res.sim]
+    | cons w1 t1 =>
+      cases t1 with
+      | nil => simp [Res.sim]
+      | cons w2 t2 =>
+        cases t2 with
+        | nil => simp [Res.sim]
+        | cons w3 t3 =>
+          cases t3 with
+          | cons w4 t4 =>
+            have hlen : ¬ ((t4.length : Int) + 1 + 1 + 1 + 1 + 1 = 4) := by omega
+            simp [Res.sim, hlen]
+          | nil =>
+            have h0 : Go.indexL [w0, w1, w2, w3] (0 : Int) = .ok w0 := by
+              have := indexL_ok [w0, w1, w2, w3] 0; simpa using this
+            have h1 : Go.indexL [w0, w1, w2, w3] (1 : Int) = .ok w1 := by
+              have := indexL_ok [w0, w1, w2, w3] 1; simpa using this
+            have h2 : Go.indexL [w0, w1, w2, w3] (2 : Int) = .ok w2 := by
+              have := indexL_ok [w0, w1, w2, w3] 2; simpa using this
+            have h3 : Go.indexL [w0, w1, w2, w3] (3 : Int) = .ok w3 := by
+              have := indexL_ok [w0, w1, w2, w3] 3; simpa using this
+            simp only [List.length_cons, List.length_nil, h0, h1, h2, h3]
+            simp only [Go.newOIDR, Go.parseUintR]
+            cases Go.newOID w0 with
+            | none => simp [Res.sim]
+            | some oid =>
+              cases Go.parseUint w2 10 64 with
+              | none => simp [Res.sim]
+              | some sz => simp [Res.sim, clamp, c32]
+
+end GitSizer
+
+namespace GitSizer
+open GitSizer.Parsers
+
+theorem sliceI_dropLast (s : Bytes) (h : s ≠ []) :
+    Go.sliceI s (0 : Int) ((s.length : Int) - 1) = .ok s.dropLast := by
+  have hpos : 0 < s.length := List.length_pos_iff.mpr h
+  have e : ((s.length : Int) - 1) = ((s.length - 1 : Nat) : Int) := by omega
+  unfold Go.sliceI Go.slice
+  rw [e]
+  have h1 : ¬ ((0 : Int) < 0 ∨ ((s.length - 1 : Nat) : Int) < 0) := by omega
+  simp only [h1, if_false, Int.toNat_natCast, Int.toNat_zero]
+  have h2 : 0 ≤ s.length - 1 ∧ s.length - 1 ≤ s.length := by omega
+  simp only [h2, and_self, if_true, List.drop_zero]
+  rw [List.dropLast_eq_take]
+
+/-- `ParseBatchHeader` as regenerated from git/batch_header.go has the model's outcome: it never
+    panics (every index is guarded) and returns the same (oid, type, size) or an error in the same cases -/
+theorem parseBatchHeader_regenerated (spec header : Bytes) :
+    Res.sim (fun t (h : BatchHeader) => t = (h.oid, h.objType, h.size))
+      (Gen.Strs.ParseBatchHeader spec header) (parseBatchHeader header) := by
+  unfold Gen.Strs.ParseBatchHeader parseBatchHeader
+  simp only [pure, bind, Res.bind]
+  by_cases he : header = []
+  · subst he; simp [Res.sim]
+  · have hemp : header.isEmpty = false := by cases header <;> simp at he ⊢
+    have hlen0 : ((header.length : Int) == 0) = false := by
+      have : 0 < header.length := List.length_pos_iff.mpr he
+      simp only [beq_eq_false_iff_ne, ne_eq]; omega
+    have hidx : ((header.length : Int) - 1) = ((header.length - 1 : Nat) : Int) := by
+      have : 0 < header.length := List.length_pos_iff.mpr he
+      omega
+    simp only [hlen0, Bool.false_eq_true, if_false, hemp, false_or]
+    rw [hidx, indexI_ok]
+    have hlast : header[header.length - 1]? = header.getLast? := by rw [List.getLast?_eq_getElem?]
+    rw [hlast]
+    cases hgl : header.getLast? with
+    | none => exact absurd (List.getLast?_eq_none_iff.mp hgl) he
+    | some c =>
+      simp only
+      by_cases hc : c = 10
+      · subst hc
+        have hne : (((10 : UInt8) != (10 : UInt8))) = false := by decide
+        simp only [hne, Bool.false_eq_true, if_false, ne_eq, not_true_eq_false]
+        rw [← hidx, sliceI_dropLast header he]
+        simp only
+        have hwne := splitOn_ne_nil 32 header.dropLast
+        generalize hws : Bytes.splitOn 32 header.dropLast = words at *
+        rw [indexL_last words hwne]
+        simp only
+        have hgl2 : words.getLast? = some (words.getLast hwne) := List.getLast?_eq_some_getLast hwne
+        rw [hgl2]
+        by_cases hm : words.getLast hwne = kMissing
+        · have : (words.getLast hwne == ([109, 105, 115, 115, 105, 110, 103] : Bytes)) = true := by
+            rw [hm]; decide
+          simp only [this, if_true, hm]
+          have h0 : Go.indexL words (0 : Int) = .ok (words.head hwne) := by
+            have := indexL_ok words 0
+            cases words with
+            | nil => exact absurd rfl hwne
+            | cons w ws => simpa using this
+          have hk : kMissing = [109, 105, 115, 115, 105, 110, 103] := rfl
+          by_cases hs : spec = []
+          · simp [hs, h0, Res.sim, hk]
+          · have : (spec == ([] : Bytes)) = false := by simp [hs]
+            simp [this, Res.sim, hk]
+        · have : (words.getLast hwne == ([109, 105, 115, 115, 105, 110, 103] : Bytes)) = false := by
+            simp only [beq_eq_false_iff_ne, ne_eq]; exact hm
+          have hne2 : ¬ (some (words.getLast hwne) = some kMissing) := by simp [hm]
+          simp only [this, Bool.false_eq_true, if_false, hne2]
+          match words, hwne with
+          | [w0], _ => simp [Res.sim]
+          | [w0, w1], _ => simp [Res.sim]
+          | w0 :: w1 :: w2 :: w3 :: t, _ =>
+            have hl : ¬ ((t.length : Int) + 1 + 1 + 1 + 1 = 3) := by omega
+            simp [Res.sim, hl]
+          | [w0, w1, w2], _ =>
+            have h0 : Go.indexL [w0, w1, w2] (0 : Int) = .ok w0 := by
+              have := indexL_ok [w0, w1, w2] 0; simpa using this
+            have h1 : Go.indexL [w0, w1, w2] (1 : Int) = .ok w1 := by
+              have := indexL_ok [w0, w1, w2] 1; simpa using this
+            have h2 : Go.indexL [w0, w1, w2] (2 : Int) = .ok w2 := by
+              have := indexL_ok [w0, w1, w2] 2; simpa using this
+            simp only [List.length_cons, List.length_nil, h0, h1, h2, Go.newOIDR, Go.parseUintR]
+            cases Go.newOID w0 with
+            | none => simp [Res.sim]
+            | some oid =>
+              cases Go.parseUint w2 10 64 with
+              | none => simp [Res.sim]
+              | some sz => simp [Res.sim]
+      · have hne : (c != (10 : UInt8)) = true := by simp [hc]
+        have hne2 : ¬ (some c = some (10 : UInt8)) := by simp [hc]
+        simp [hne, hne2, Res.sim]
 
 end GitSizer
